@@ -38,6 +38,7 @@ type obs struct {
 	typ       string
 	typOK     bool
 	decodeErr bool
+	inscribed bool
 	panics    []string
 }
 
@@ -138,7 +139,7 @@ func observeOpt(s []byte, withJSON bool) *obs {
 	})
 	// further entry points that must not panic either (not compared with the model)
 	for name, f := range map[string]func(){
-		"IsInscribed": func() { _ = scr().IsInscribed() },
+		"IsInscribed": func() { o.inscribed = scr().IsInscribed() },
 		"NodeJSON(input)": func() {
 			if !withJSON {
 				return
@@ -171,6 +172,10 @@ func isExactP2PKH(s []byte) bool {
 // not an unmodified template.
 func predicates(s []byte, o *obs, expect string) {
 	in := trunc(common.Hex(s))
+	// a script that instantiates the P2PKH-inscription template is reported as inscribed by every inscription test
+	if expect == bscript.ScriptTypePubKeyHashInscription && !o.inscribed {
+		c.Violate("IsInscribed/false-on-a-P2PKH-inscription-template", "the script is an unmodified P2PKH inscription built by Tx.Inscribe", in)
+	}
 	for _, p := range o.panics {
 		c.Violate(strings.SplitN(p, ":", 2)[0]+"/panic", p, in)
 	}
@@ -316,6 +321,12 @@ func templates(r *common.Rand) []template {
 	ts = append(ts, mk("inscription", bscript.ScriptTypePubKeyHashInscription, inscription(r, "text/plain", []byte("Hello, world!"), nil)))
 	ts = append(ts, mk("inscription-enriched", bscript.ScriptTypePubKeyHashInscription, inscription(r, "image/png", r.Bytes(9), [][]byte{[]byte("MAP"), r.Bytes(4)})))
 	ts = append(ts, mk("inscription-empty-fields", bscript.ScriptTypePubKeyHashInscription, inscription(r, "", []byte{}, nil)))
+	{
+		// the tag bytes "ord" (and the whole header) also occur before the envelope: in the key hash, and in the payload
+		ins := inscription(r, "text/ord", []byte("ord\x00\x63\x03ord"), nil)
+		copy(ins[3:], []byte{0xb6, 0xaa, 0x34, 'o', 'r', 'd', 0x03, 'o', 'r', 'd'})
+		ts = append(ts, mk("inscription-ord-in-hash", bscript.ScriptTypePubKeyHashInscription, ins))
+	}
 	return ts
 }
 
